@@ -8,10 +8,11 @@
  * that array.  mark_table_blocks() is cut (recording stub); ext2fs_block_alloc_stats2, ext2fs_flush,
  * ext2fs_group_desc_csum_set are recording stubs.
  *
- * One group, inode table of IPB blocks at the fixed block OLD_TB in the middle of the device; the NEW location is
- * OLD_TB + DIFF (DIFF concrete per query: every overlapping distance in both directions, both disjoint cases, 0).  The old table's blocks carry distinct concrete tags of which the last ZT are zero (ZT = 0..IPB,
- * one query each: the byte scan for trailing zero blocks -- 4096 iterations -- is then decided during symbolic
- * execution; with symbolic tags the query needs 9M clauses / 160 s); everything else on the device is symbolic.
+ * One group, inode table of IPB blocks; old and new table locations symbolic (any distance, overlapping or not;
+ * direction of the move per query, MOVE: 1 = to higher block numbers, 2 = to lower, 0 = not moved); every block tag
+ * symbolic (so the number of trailing all-zero blocks is symbolic too).  The query needs
+ * --max-field-sensitivity-array-size 4096 (spec.py): the 4 KiB table buffer is then tracked byte by byte and the
+ * 4096-step byte scan for trailing zeros only branches at the 4 tag bytes (without it: 9M clauses, 160 s).
  * Decided:
  *   - afterwards device[new + k] == old content of device[old + k] for every k < IPB (in particular: zero where
  *     the old table was zero), whatever was on the device at the new place before;
@@ -30,20 +31,17 @@ static errcode_t mark_table_blocks(ext2_filsys fs, ext2fs_block_bitmap bmap);
 #ifndef NGRP
 #define NGRP 1
 #endif
+#if NGRP != 1
+#error one group only (typed descriptor table)
+#endif
 #ifndef IPB
 #define IPB 4
 #endif
-#ifndef DIFF
-#define DIFF 1
-#endif
-#define MOVE ((DIFF) > 0 ? 1 : (DIFF) < 0 ? 2 : 0)
-#define NEW_TB (OLD_TB + (DIFF))
-#ifndef ZT
-#define ZT 0
+#ifndef MOVE
+#define MOVE 1
 #endif
 #define NBLK 16
 #define BS 1024
-#define OLD_TB 6
 
 struct vf_in {
 	unsigned char dev[NBLK];
@@ -59,8 +57,8 @@ static struct ext2_super_block vf_osb, vf_nsb;
 static struct ext2_resize_struct vf_rfs;
 static struct struct_io_channel vf_io;
 static struct struct_io_manager vf_mgr;
-static unsigned char vf_ogd[1024] __attribute__((aligned(8)));
-static unsigned char vf_ngd[1024] __attribute__((aligned(8)));
+/* descriptor tables typed as the accessors of blknum.c see them (one group): field reads stay constants */
+static struct ext4_group_desc vf_ogd[1], vf_ngd[1];
 static long vf_bmap_obj;
 
 static int vf_io_bad, vf_nreadio, vf_nwriteio;
@@ -139,9 +137,14 @@ int main(void)
 	VF_INPUT(IN);
 	/* BOUND: NGRP groups, inode table IPB blocks of 1 KiB, device of 16 blocks, one tag byte per block */
 	for (g = 0; g < NGRP; g++) {
-		/* BOUND: the distance of the move DIFF = new - old is concrete per query (-5 .. +6: every overlap and both
-		 * disjoint cases): a symbolic distance puts the table read under a symbolic guard and the byte scan explodes */
-		ASSUME(IN.old_tb[g] == OLD_TB && IN.new_tb[g] == NEW_TB);
+		ASSUME(IN.old_tb[g] >= 1 && IN.old_tb[g] <= NBLK - IPB && IN.new_tb[g] >= 1 && IN.new_tb[g] <= NBLK - IPB);
+#if MOVE == 1
+		ASSUME(IN.new_tb[g] > IN.old_tb[g]);
+#elif MOVE == 2
+		ASSUME(IN.new_tb[g] < IN.old_tb[g]);
+#else
+		ASSUME(IN.new_tb[g] == IN.old_tb[g]);
+#endif
 	}
 #if NGRP == 2
 	/* ASSUME: tables of different groups do not overlap (old/old, new/new, and new of one vs old of the other:
@@ -151,13 +154,7 @@ int main(void)
 	ASSUME(IN.new_tb[0] + IPB <= IN.old_tb[1] || IN.old_tb[1] + IPB <= IN.new_tb[0]);
 	ASSUME(IN.new_tb[1] + IPB <= IN.old_tb[0] || IN.old_tb[0] + IPB <= IN.new_tb[1]);
 #endif
-	/* BOUND: old table content: block k tagged 0x11 + k, the last ZT blocks all-zero (concrete per query) */
-	for (p = 0; p < NBLK; p++) {
-		if (p >= OLD_TB && p < OLD_TB + IPB)
-			ASSUME(IN.dev[p] == ((p - OLD_TB < IPB - ZT) ? 0x11 + (p - OLD_TB) : 0));
-	}
-	for (p = 0; p < NBLK; p++)
-		vf_dev[p] = (p >= OLD_TB && p < OLD_TB + IPB) ? ((p - OLD_TB < IPB - ZT) ? 0x11 + (p - OLD_TB) : 0) : IN.dev[p];
+	for (p = 0; p < NBLK; p++) vf_dev[p] = IN.dev[p];
 	vf_osb.s_magic = vf_nsb.s_magic = EXT2_SUPER_MAGIC;
 	vf_osb.s_rev_level = vf_nsb.s_rev_level = EXT2_DYNAMIC_REV;
 	vf_osb.s_log_block_size = vf_nsb.s_log_block_size = 0;
@@ -165,8 +162,8 @@ int main(void)
 	vf_osb.s_blocks_per_group = vf_nsb.s_blocks_per_group = 8192;
 	vf_osb.s_blocks_count = vf_nsb.s_blocks_count = NBLK;
 	for (g = 0; g < NGRP; g++) {
-		((struct ext2_group_desc *) (vf_ogd + 32 * g))->bg_inode_table = OLD_TB;
-		((struct ext2_group_desc *) (vf_ngd + 32 * g))->bg_inode_table = NEW_TB;
+		vf_ogd[g].bg_inode_table = IN.old_tb[g];
+		vf_ngd[g].bg_inode_table = IN.new_tb[g];
 	}
 	vf_mgr.magic = EXT2_ET_MAGIC_IO_MANAGER;
 	vf_io.magic = EXT2_ET_MAGIC_IO_CHANNEL; vf_io.manager = &vf_mgr; vf_io.block_size = BS;
@@ -186,7 +183,7 @@ int main(void)
 	rc = move_itables(&vf_rfs);
 
 	PROP(rc == 0 && !vf_io_bad, "succeeds; I/O only on the channel, inside the device, whole-table reads");
-#if DIFF == 0
+#if MOVE == 0
 	PROP(vf_nreadio == 0 && vf_nwriteio == 0 && vf_nflush_old == 0 && vf_nflush_new == 0 && vf_nmark == 0 && vf_ncsum == 0,
 	     "no table moves: nothing is read, written or flushed");
 	for (p = 0; p < NBLK; p++) PROP(vf_dev[p] == IN.dev[p] && vf_released[p] == 0, "no table moves: device and bitmap untouched");
